@@ -373,6 +373,127 @@ fn snapshot_unpack(req: &Value) -> Value {
     json!({"ok": true, "direct": map_json(&regs), "state": Value::Object(state)})
 }
 
+/// The Rust core's public copies of the key-port window, swept over all 256 internal offsets:
+/// `MemoryImage::is_keyboard_offset`, the offsets whose `MemoryImage::requires_python` answer depends on
+/// `set_keyboard_bridge`, and the offsets `KeyboardMatrix::handle_read` / `handle_write` accept (fresh
+/// keyboard and memory for every offset).
+fn kio_tables(_req: &Value) -> Value {
+    let base = memory::INTERNAL_MEMORY_START;
+    let is_kb: Vec<u32> = (0u32..0x100)
+        .filter(|o| MemoryImage::is_keyboard_offset(*o))
+        .collect();
+    let mut plain = MemoryImage::new();
+    plain.set_keyboard_bridge(false);
+    let mut bridged = MemoryImage::new();
+    bridged.set_keyboard_bridge(true);
+    let bridge_dep: Vec<u32> = (0u32..0x100)
+        .filter(|o| plain.requires_python(base + *o) != bridged.requires_python(base + *o))
+        .collect();
+    let mut rd: Vec<u32> = Vec::new();
+    let mut wr: Vec<u32> = Vec::new();
+    for o in 0u32..0x100 {
+        let mut kb = sc62015_core::KeyboardMatrix::new();
+        let mut mem = MemoryImage::new();
+        if kb.handle_read(o, &mut mem).is_some() {
+            rd.push(o);
+        }
+        let mut kb = sc62015_core::KeyboardMatrix::new();
+        let mut mem = MemoryImage::new();
+        if kb.handle_write(o, 0x11, &mut mem) {
+            wr.push(o);
+        }
+    }
+    json!({"ok": true, "is_keyboard_offset": is_kb, "requires_python_bridge_dependent": bridge_dep,
+           "handle_read": rd, "handle_write": wr})
+}
+
+fn kb_latches(rt: &CoreRuntime) -> Value {
+    match rt.keyboard.as_ref() {
+        Some(kb) => {
+            let s = kb.snapshot_state();
+            json!([s.kol, s.koh, s.kil_latch])
+        }
+        None => Value::Null,
+    }
+}
+
+/// Batch of independent single-instruction runs through `CoreRuntime::step` (the only place where the
+/// runtime's own bus -- and with it the private copy of the key-port window -- is used).  Common setup:
+/// "kb_writes" (applied through `KeyboardMatrix::handle_write`, so that the keyboard's latches differ from
+/// memory), then "imem" (256 bytes planted directly into the `MemoryImage`).  Per run: "code" at "pc",
+/// "regs", and "keyboard": false detaches the keyboard (`rt.keyboard = None`) before anything else.
+/// Reported per run: registers, the internal-memory image and the keyboard latches (pub snapshot fields)
+/// before and after the step.
+fn runtime_probe(req: &Value) -> Value {
+    let imem: Vec<u8> = req
+        .get("imem")
+        .and_then(|v| v.as_array())
+        .map(|a| a.iter().map(|x| x.as_u64().unwrap_or(0) as u8).collect())
+        .unwrap_or_default();
+    let kb_writes: Vec<(u32, u8)> = req
+        .get("kb_writes")
+        .and_then(|v| v.as_array())
+        .map(|a| {
+            a.iter()
+                .map(|p| {
+                    (
+                        p.get(0).and_then(|x| x.as_u64()).unwrap_or(0) as u32,
+                        p.get(1).and_then(|x| x.as_u64()).unwrap_or(0) as u8,
+                    )
+                })
+                .collect()
+        })
+        .unwrap_or_default();
+    let pc = get_u32(req, "pc", 0x10000);
+    let empty: Vec<Value> = Vec::new();
+    let runs = req.get("runs").and_then(|v| v.as_array()).unwrap_or(&empty);
+    let mut out: Vec<Value> = Vec::with_capacity(runs.len());
+    for run in runs {
+        let mut rt = CoreRuntime::new();
+        let attached = run.get("keyboard").and_then(|v| v.as_bool()).unwrap_or(true);
+        if !attached {
+            rt.keyboard = None;
+        }
+        if let Some(kb) = rt.keyboard.as_mut() {
+            for (o, v) in kb_writes.iter() {
+                kb.handle_write(*o, *v, &mut rt.memory);
+            }
+        }
+        for (o, v) in imem.iter().enumerate() {
+            rt.memory.write_internal_byte(o as u32, *v);
+        }
+        if let Some(code) = run.get("code").and_then(|v| v.as_array()) {
+            for (i, b) in code.iter().enumerate() {
+                rt.memory
+                    .write_external_byte(pc + i as u32, b.as_u64().unwrap_or(0) as u8);
+            }
+        }
+        if let Some(regs) = run.get("regs").and_then(|v| v.as_object()) {
+            for (k, v) in regs.iter() {
+                if let Some(x) = v.as_u64() {
+                    rt.set_reg(k, x as u32);
+                }
+            }
+        }
+        rt.set_reg("PC", pc);
+        let before = kb_latches(&rt);
+        let error = match rt.step(1) {
+            Ok(()) => Value::Null,
+            Err(e) => json!(format!("{e}")),
+        };
+        let mut regs = Map::new();
+        for n in ["BA", "I", "X", "Y", "U", "S", "F", "PC"].iter() {
+            regs.insert(n.to_string(), json!(rt.get_reg(n)));
+        }
+        let image: Vec<Value> = (0u32..0x100)
+            .map(|o| json!(rt.memory.read_internal_byte_silent(o).unwrap_or(0)))
+            .collect();
+        out.push(json!({"regs": Value::Object(regs), "imem": image, "kb_before": before,
+                        "kb_after": kb_latches(&rt), "err": error}));
+    }
+    json!({"ok": true, "runs": out})
+}
+
 pub fn handle(verb: &str, req: &Value) -> Value {
     match verb {
         "timer_isr" => timer_isr(req),
@@ -383,6 +504,8 @@ pub fn handle(verb: &str, req: &Value) -> Value {
         "irq_runtime" => irq_runtime(req),
         "snapshot_pack" => snapshot_pack(req),
         "snapshot_unpack" => snapshot_unpack(req),
+        "kio_tables" => kio_tables(req),
+        "runtime_probe" => runtime_probe(req),
         _ => err(format!("unknown c17 verb {verb}")),
     }
 }
